@@ -318,7 +318,13 @@ def parcontext_siblings(facts):
     eb = facts.body("par::ParContext::enqueue_buffer")
     c = ExprCtx(eb)
     sends = calls_def(eb, "Sender::<T>::send")
-    check(rr, len(sends) == 1 and c.expr(sends[0][1]["args"][1]) == P(1, ".bytebuf"), rr.rule, eb,
+    def _is_copy_of_bytebuf(e):
+        # self.bytebuf.clone() (a pass-through for the expression builder), .to_vec(), .to_owned(), Vec::from(..)
+        if e == P(1, ".bytebuf"):
+            return True
+        return isinstance(e, tuple) and e and e[0] == "call" and re.search(r"::(to_vec|to_owned|from|clone|into)$", e[1] or "") \
+            and len(e[2]) == 1 and _is_copy_of_bytebuf(e[2][0])
+    check(rr, len(sends) == 1 and _is_copy_of_bytebuf(c.expr(sends[0][1]["args"][1])), rr.rule, eb,
           "enqueue-sends-bytebuf", "enqueue_buffer sends %s" % [show(c.expr(t["args"][1])) for _b, t in sends])
     # constructor + hashing thread
     new = facts.body("par::ParContext::new")
@@ -374,38 +380,83 @@ def forward_impls(facts):
         else:
             continue
         found += 1
-        c = ExprCtx(b)
-        rest = [P(i) for i in range(2, b.argc + 1)]
-        fw = [(bi, t) for bi, t in b.calls() if (t.get("fn") or {}).get("def") == "%s::%s" % (FILL, r["name"])]
-        got = [[c.expr(a) for a in t["args"]] for _bi, t in fw]
-        for comp in comps:
-            hits = [g for g in got if g and g[0] == comp]
-            check(rr, len(hits) == 1 and hits[0][1:] == rest, rr.rule, b, "forwards-%s-to-%s" % (r["name"], show(comp)),
-                  "%s forwards to component %s %d time(s) with arguments %s" %
-                  (b.id, show(comp), len(hits), [[show(x) for x in h[1:]] for h in hits]))
-        # same method only
-        others = [t["fn"]["def"] for _bi, t in b.calls() if (t.get("fn") or {}).get("trait") == FILL
-                  and t["fn"]["def"] != "%s::%s" % (FILL, r["name"])]
-        check(rr, not others, rr.rule, b, "no-cross-method-forwarding", "%s also calls %s" % (b.id, others))
-        # results: the last forwarded call's result is the return value; earlier ones go through `?`
-        for i, (bi, t) in enumerate(fw):
-            dst = t["dst"]
-            if dst["l"] == 0 and not dst["p"]:
-                rr.ok({"function": b.id, "clause": "result-returned", "verdict": "ok"})
+        # read off the effect interpreter: the calls made (closures of and_then / match arms included), their arguments,
+        # and which of them must have returned Ok for the wrapper to return Ok
+        from . import lib_effect as E
+        from .c11 import _leaves
+        ectx = E.Ctx(facts)
+        ectx.open_loops = True
+        ectx.collect_asserts = True
+        ectx.log_calls = r"source::Fill::(fill_interleaved|fill_le_bytes)$|Fill>::(fill_interleaved|fill_le_bytes)$"
+        itp = E.Interp(ectx, b)
+        try:
+            itp.run()
+        except E.Undecided as e:
+            check(rr, False, rr.rule, b, "undecided", "cannot summarise %s: %s" % (b.id, e))
+            continue
+        logged = []
+        for cl_ in ectx.calls:
+            if cl_[3] != b.id and not cl_[3].startswith(b.id + "::{closure"):
                 continue
-            uses = b.uses_of_local(dst["l"])
-            prop = False
-            for (ub, us) in uses:
-                if us == "term":
-                    tt = b.term(ub)
-                    if tt["k"] == "call" and (tt.get("fn") or {}).get("def") == "std::ops::Try::branch":
-                        prop = True
-                else:
-                    s = b.blocks[ub]["stmts"][us]
-                    if s["k"] == "assign" and s["dst"]["l"] == 0:
-                        prop = True
-            check(rr, prop, rr.rule, b, "result-propagated#%d" % i,
-                  "the Result of the forwarded call at %s is not propagated" % b.loc(bi, "term"))
+            key = (cl_[0], tuple(E.canon(a) for a in cl_[1]))
+            if key not in [k for k, _c in logged]:
+                logged.append((key, cl_))
+        want_rest = ["arg%d" % i for i in range(2, b.argc + 1)]
+        comp_names = [show(x) for x in comps]
+        ckeys = ["arg1" + "".join(x[2]) if isinstance(x, tuple) and x[0] == "p" else str(x) for x in comps]
+        same_method = [(k, c_) for k, c_ in logged if k[0].endswith("::" + r["name"])]
+        for comp, ck in zip(comps, ckeys):
+            hits = [k for k, _c in same_method if k[1] and k[1][0] == ck]
+            check(rr, len(hits) == 1 and list(hits[0][1][1:]) == want_rest, rr.rule, b,
+                  "forwards-%s-to-%s" % (r["name"], show(comp)),
+                  "%s forwards to component %s %d time(s) with arguments %s" %
+                  (b.id, show(comp), len(hits), [list(h[1][1:]) for h in hits]))
+        others = [k[0] for k, _c in logged if not k[0].endswith("::" + r["name"])]
+        check(rr, not others, rr.rule, b, "no-cross-method-forwarding", "%s also calls %s" % (b.id, others))
+        # results: whenever the wrapper returns Ok, every forwarded call returned Ok
+        call_keys = [E.canon(("call", c_[0], c_[1], ())) for _k, c_ in same_method]
+
+        def required_ok(rv, conds):
+            need = set()
+            for f_ in itp.assume:
+                if f_[0] == "okcall":
+                    need.add(E.canon(("call", f_[1], f_[2], ())))
+                if f_[0] == "cond" and f_[2] == 0:
+                    c1 = E.strip_casts(f_[1])
+                    if isinstance(c1, tuple) and c1 and c1[0] == "discr":
+                        need.add(E.canon(c1[1]))
+            for cnd, labs in conds:
+                c0 = E.strip_casts(cnd)
+                if isinstance(c0, tuple) and c0 and c0[0] == "discr" and labs == (0,):
+                    need.add(E.canon(c0[1]))
+                if isinstance(c0, tuple) and c0 and c0[0] == "discr" and isinstance(c0[1], tuple) and c0[1][0] == "branch" and labs == (0,):
+                    need.add(E.canon(c0[1][1]))
+            r0 = E.strip_casts(rv)
+            stack = [r0]
+            while stack:
+                x = stack.pop()
+                if isinstance(x, tuple) and x and x[0] == "allok":
+                    stack.extend(x[1])
+                elif isinstance(x, tuple) and x and x[0] == "okif":
+                    stack.append(x[1])
+                elif isinstance(x, tuple) and x and x[0] == "call":
+                    need.add(E.canon(x))
+            return need
+        okp = True
+        missing = []
+        for conds, leaf in _leaves(itp.retval):
+            l0 = E.strip_casts(leaf)
+            if isinstance(l0, tuple) and l0 and l0[0] == "agg" and l0[2] == "Err":
+                continue
+            need = required_ok(leaf, conds)
+            for i, ck in enumerate(call_keys):
+                if not any(ck == n or ck in n for n in need):
+                    okp = False
+                    missing.append(i)
+        for i, (_k, c_) in enumerate(same_method):
+            check(rr, i not in missing, rr.rule, b, "result-propagated#%d" % i,
+                  "the Result of the forwarded call at %s is not propagated: the wrapper can return Ok although that call "
+                  "failed" % c_[2])
     if found < 4:
         raise FactError("wrapper impls of Fill found: %d (expected (T,U) and &mut T, two methods each)" % found)
     rr.require_floor(16, "forwarding clauses")
